@@ -8,7 +8,7 @@ From Coq Require Import String.
 From Cvg Require Import Base GoTypes Dump Options Front Builder Gen.
 From Cvg.proofs Require Import BuilderProofs MatchProofs TypedProofs.
 From Cvg Require Import GoLib GoFuns.
-From Cvg.proofs Require Import GenTieProofs.
+From Cvg.proofs Require Import GenTieProofs HeaderProofs.
 Open Scope N_scope.
 
 (** Every expression castNode lets through for a target type t is assignable to
@@ -110,3 +110,16 @@ Theorem C01_text_is_what_the_go_code_prints :
   forall f, GoGen.FuncToString (lower_function f) = func_to_string f.
 Proof. exact func_to_string_tie. Qed.
 Print Assumptions C01_text_is_what_the_go_code_prints.
+
+(** The variables a generated function declares in its one scope — the source (or receiver),
+    the destination, the additional arguments, and [err] when it returns an error — have
+    pairwise different names, whatever the method declared (a parameter called err, dst, arg0
+    or _ included): CreateFunction rejects every other method. *)
+Theorem C01_variables_declared_once :
+  forall d fuel m comments f ev,
+    create_function d fuel m comments = (Ok f, ev) ->
+    NoDup (v_name (fn_src f) :: v_name (fn_dst f) :: List.map v_name (fn_args f)) /\
+    (fn_ret_err f = true ->
+     ~ In (s2b "err") (v_name (fn_src f) :: v_name (fn_dst f) :: List.map v_name (fn_args f))).
+Proof. exact create_function_names_distinct. Qed.
+Print Assumptions C01_variables_declared_once.
